@@ -375,6 +375,47 @@ def clause4_cursor(ctx, P):
     ctx.floor("C09.4 R-CURSOR", 10)
 
 
+def clause_wouldblock_source(ctx, P, cg):
+    """edge-triggered readiness: 'would block' may only be reported after the socket itself said so. A reader that reports
+    it on its own leaves bytes - or the peer's FIN - unread with no further event to come."""
+    WB = Q.macro(P, "buffered_socket.c", "BS_IO_WOULD_BLOCK")
+    fb = None
+    for f in P.own_functions():
+        if f.base == "buffered_socket.c" and f.calls("socket_read"):
+            fb = f
+    if fb is None or WB is None:
+        raise AnalysisBroken("buffered_socket.c: the function that calls socket_read / BS_IO_WOULD_BLOCK not found")
+    # in the socket-facing function: would-block is returned only under the errno test after a failed read
+    okfb = True
+    nwb = 0
+    for v in Q.path_views(ctx, P, fb):
+        if v.ret_const() == WB:
+            nwb += 1
+            failed = v.has_atom(lambda a, p: a[0] == "cmp" and Q.is_call_to(a[2], "socket_read") and a[3] == ("const", -1) and Q._poleq(a, p))
+            if not failed:
+                okfb = False
+    ctx.ob("C09.2 R-WHO", fb, "would-block-only-after-the-socket-said-so", okfb and nwb > 0,
+           "%s reports 'would block' on a path on which socket_read() did not fail" % fb.srcname)
+    n = 0
+    for f in P.own_functions():
+        if f.base != "buffered_socket.c" or f is fb or f.ret != fb.ret:
+            continue
+        if fb.name not in cg.reach(f.name):
+            continue
+        n += 1
+        own_wb = []
+        for i in f.all_insts():
+            if i.op == "ret" and i.a:
+                lv, _ = Q.leaves(P, f, i.a[0], through_loads=False)
+                if ("const", WB) in lv:
+                    own_wb.append(i)
+        ctx.ob("C09.2 R-WHO", f, "would-block-is-forwarded-not-invented", not own_wb,
+               "%s returns BS_IO_WOULD_BLOCK as a constant of its own instead of forwarding what %s reported: with edge-triggered "
+               "epoll nothing wakes the connection again, queued bytes or the peer's FIN stay unread" % (f.srcname, fb.srcname))
+    if n < 2:
+        raise AnalysisBroken("reader functions on top of %s: %d" % (fb.srcname, n))
+
+
 def run(ctx):
     for cfg in ctx.configs():
         P, cg = cfg.P, cfg.cg
@@ -382,3 +423,4 @@ def run(ctx):
         clause2_length(ctx, P, cg)
         clause3_state(ctx, P)
         clause4_cursor(ctx, P)
+        clause_wouldblock_source(ctx, P, cg)
